@@ -50,6 +50,11 @@ class RerunConverges(FlowBase):
             g["multi"] = True
         if not info.get("retried"):
             g["outc"][t] = [res.extra.get("status", "succeeded"), res.extra.get("result")]
+            if info["status"] == "failed" and res.extra.get("action"):
+                lin = list(pre["state"]["routes"][res.extra["action"][1]])
+                g.setdefault("failed_any", [])
+                if [t, lin] not in g["failed_any"]:
+                    g["failed_any"].append([t, lin])
         return []
 
     def on_rerun(self, g, pre, move, sim, res, post):
@@ -81,23 +86,47 @@ class RerunConverges(FlowBase):
             if not down and [t, lin] not in keep:
                 keep.append([t, lin])
         items = any(t in self._items for t, _ in keep) or bool(self._items)
-        g["rr"] = {"requested": keep, "requested_explicit": bool(reqs), "items": items}
+        g["rr"] = {"requested": keep, "requested_explicit": bool(reqs), "items": items, "handled_requested": False}
+        unhandled_before = [list(x) for x in g["unhandled"]]
         if items:
             g["off"] = "rerun in a definition with with-items tasks (stuck-freedom and exceptions only)"
             return []
-        for (t, lin) in keep:
+        optional = []
+        if not reqs:
+            # by default the failed terminal executions: those nothing handled must be re-executed; those
+            # handled only by an engine command (noop/fail) may be (the statement does not say)
+            optional = [list(x) for x in g["handled_terminal"] + g.get("failed_any", []) if list(x) not in keep]
+            optional = [x for i, x in enumerate(optional) if x not in optional[:i]]
+        for (t, lin) in keep + optional:
             last = g["last"].get(rm.lkey(t, lin))
             ctx = last[0] if last else None
-            g["tok"].append([t, lin, ctx, 0, False])
-            # joins downstream will be satisfied again by the new executions
-            for k, a in g["arr"].items():
-                jt = k.split("|", 1)[0]
-                if jt in self._reach(t):
-                    a["fired"] = 0
-                    a["pending"] = False
-                    a["from"] = [x for x in a["from"] if x[0] != t and x[0] not in self._reach(t)]
-            g["fatal"] = [f for f in g["fatal"] if not f.endswith(" %s" % t)]
+            is_opt = [t, lin] in optional
+            g["tok"].append([t, lin, ctx, 0, False, None, is_opt])
+            if not is_opt:
+                self._reset_downstream(g, t, lin)
+                if [t, lin] not in unhandled_before:
+                    g["rr"]["handled_requested"] = True
         g["unhandled"] = [u for u in g["unhandled"] if u not in keep]
+        g["handled_terminal"] = [u for u in g["handled_terminal"] if u not in optional]
+        return []
+
+    def _reset_downstream(self, g, t, lin):
+        # joins downstream (on the same lineage) will be satisfied again by the new executions
+        for k, a in g["arr"].items():
+            jt = k.split("|", 1)[0]
+            jl = json.loads(k.split("|", 1)[1])
+            if jt in self._reach(t) and jl[: len(lin)] == lin:
+                a["fired"] = 0
+                a["pending"] = False
+                a["from"] = [x for x in a["from"] if x[0] != t and x[0] not in self._reach(t)]
+        g["fatal"] = [f for f in g["fatal"] if not f.endswith(" %s" % t)]
+
+    def check_offer(self, g, offer, run, consumed, post):
+        if consumed and g.get("rr") is not None and g.get("last_consumed_optional"):
+            g["last_consumed_optional"] = False
+            self._reset_downstream(g, offer["id"], run[1])
+            g["rr"]["handled_requested"] = True
+            g["unhandled"] = [u for u in g["unhandled"] if u[0] != offer["id"]]
         return []
 
     def _reach(self, t):
@@ -146,7 +175,9 @@ class RerunConverges(FlowBase):
 
     # ---- clean twin: the same definition with the recorded outcomes (rerun tasks succeeded)
     def _twin(self, g, sim, post):
-        if g["multi"] or self.ref.d.has_cycle():
+        if g["multi"] or self.ref.d.has_cycle() or g["rr"].get("handled_requested"):
+            # the clean-run relation is only defined when the re-executed failures had not been handled
+            # (a handler that already ran cannot be undone by the rerun)
             self.stats["twins_skipped"] += 1
             return []
         outc = g["outc"]
@@ -177,7 +208,10 @@ class RerunConverges(FlowBase):
         if a != b:
             return [{"kind": "rerun_outcome_differs_from_clean_run",
                      "sig": {"aspect": "status" if a["status"] != b["status"] else "output",
-                             "rerun": a["status"], "clean": b["status"]},
+                             "rerun": a["status"], "clean": b["status"],
+                             "other_unhandled_failure_remains": bool(g["unhandled"]),
+                             "fail_command_ran": any(f.startswith("fail command") for f in g["fatal"]),
+                             "default_request": not g["rr"]["requested_explicit"]},
                      "detail": {"after_rerun": a, "clean_run": b, "outcomes": outc}}]
         return []
 
